@@ -19,8 +19,47 @@ pub enum BedErr {
     Setup(String),
 }
 
+thread_local! {
+    /// the thread on which the last case of this (oracle) thread ran its runtime: panics are attributed through it
+    static CASE_THREAD: std::cell::Cell<Option<std::thread::ThreadId>> = const { std::cell::Cell::new(None) };
+}
+
 /// Run one case.  `f` receives the bed and returns the case future.
+///
+/// The case's runtime lives on a thread of its own.  A soft watchdog ends a case whose future merely never
+/// completes; if the runtime thread itself is blocked (a synchronous deadlock inside the library, e.g. a lock held
+/// across an await on a single-threaded runtime) the caller stops waiting `real_cap` + 5 s after the start, the
+/// blocked thread is abandoned, and the case is reported as `RealTimeCap` as well.
 pub fn run_case<T, F, Fut>(real_cap: Duration, f: F) -> Result<T, BedErr>
+where
+    T: Send + 'static,
+    F: FnOnce(Bed) -> Fut + Send + 'static,
+    Fut: Future<Output = T>,
+{
+    let (tx, rx) = std::sync::mpsc::channel::<Result<T, BedErr>>();
+    let h = std::thread::Builder::new()
+        .name("case-runtime".into())
+        .stack_size(32 << 20)
+        .spawn(move || {
+            let _ = tx.send(run_case_here(real_cap, f));
+        })
+        .map_err(|e| BedErr::Setup(e.to_string()))?;
+    CASE_THREAD.with(|c| c.set(Some(h.thread().id())));
+    match rx.recv_timeout(real_cap + Duration::from_secs(5)) {
+        Ok(r) => {
+            let _ = h.join();
+            r
+        }
+        Err(std::sync::mpsc::RecvTimeoutError::Timeout) => Err(BedErr::RealTimeCap),
+        Err(std::sync::mpsc::RecvTimeoutError::Disconnected) => match h.join() {
+            // a panic inside the case future (library code called directly by the case): seen by the caller as before
+            Err(payload) => std::panic::resume_unwind(payload),
+            Ok(()) => Err(BedErr::Setup("the case thread ended without a result".into())),
+        },
+    }
+}
+
+fn run_case_here<T, F, Fut>(real_cap: Duration, f: F) -> Result<T, BedErr>
 where
     F: FnOnce(Bed) -> Fut,
     Fut: Future<Output = T>,
@@ -402,10 +441,11 @@ pub fn tcp_queues(local_port: u16, remote_port: u16) -> Option<(u64, u64)> {
 /// panics recorded by the global hook since `mark`, whose location lies in the repository's crates
 pub fn library_panics_since(mark: usize) -> Vec<String> {
     let me = std::thread::current().id();
+    let case_thread = CASE_THREAD.with(|c| c.get());
     let g = crate::engine::GLOBAL_PANICS.lock().unwrap();
     g.iter()
         .skip(mark)
-        .filter(|(t, p)| *t == me && (p.contains("/repo/crates") || p.contains("crates/ed") || p.contains("crates/erltf")))
+        .filter(|(t, p)| (*t == me || Some(*t) == case_thread) && (p.contains("/repo/crates") || p.contains("crates/ed") || p.contains("crates/erltf")))
         .map(|(_, p)| p.clone())
         .collect()
 }
